@@ -50,6 +50,7 @@ def run(ck):
         traces.append(with_forks(rng, dense_queries(dbgen.gen_launch_trace(rng), 5), rng.randint(1, kf)))
     for _ in range(80 * n):
         traces.append(dbgen.gen_kv_trace(rng, length=rng.randint(6, 16)))
+    traces = [dbgen.with_lag(rng, t, 0.5) for t in traces]
     if not ok:
         return
     dbprops.run_db_property(ck, eng, traces, [], with_replicas=True, nontrivial=nontrivial)
